@@ -18,6 +18,7 @@ TStep == \/ TReset
          \/ Ev.ev = "Grow" /\ Step(Grow(A(1)))
          \/ Ev.ev = "AddY" /\ Step(AddY(A(1)))
          \/ Ev.ev = "RemoveY" /\ Step(RemoveY(A(1)))
+         \/ Ev.ev = "IterRemove" /\ Step(IterRemove(A(1)))
          \/ Ev.ev = "Diff" /\ Step(Diff)
          \/ Ev.ev = "Intersect" /\ Step(Intersect)
          \/ Ev.ev = "Merge" /\ Step(Merge)
